@@ -761,4 +761,203 @@ func c09File(c0 *Ctx) {
 		}
 	}
 	r.note("file: %d files, %d texts in all: %v", n, len(texts), time.Since(tStart).Round(time.Millisecond))
+
+	// ---- D. accepted file texts: the hypotheses of Props.C09 section AcceptedFileTexts ----
+	// On the file the REAL parser returned for every accepted generated / respelled / near-miss text
+	// (and for the probe texts of c09fHypProbes, the witnesses of the section) the driver evaluates
+	// fileStrsValid (F6b), fileNoNegZero (F26), fileMBValid (F25), fileMB32Valid (F29),
+	// fileModsDistinct (F40), fileCallsDistinct (F34) and wfFile (op C09.filehyps): all hypotheses
+	// true but wfFile false refutes parse_produces_wf_file_partial as a description of the real
+	// parser (C09:accepted-file-not-wf), and so does the reverse.  The reader of the float32
+	// variant (parseFile32, op C09.parsefile32) must return what the real parser returns on every
+	// text.  The sample text of the section goes through the real parser and formatter.
+	t0 = time.Now()
+	var hk, hd, ht []string
+	for j, t := range texts {
+		kind := "gen"
+		if j >= nGen {
+			kind = "near-miss"
+		}
+		hk, hd, ht = append(hk, kind), append(hd, realDump[t]), append(ht, t.text)
+	}
+	for _, t := range c09fHypProbes {
+		x := realParse(t)
+		if !strings.HasPrefix(x.dump, "some\t") {
+			mismatch("C09:accepted-file-not-wf", "probe text of section AcceptedFileTexts is rejected by the real parser", c09ftBroken, map[string]interface{}{"text": t}, x.dump, "some …")
+			continue
+		}
+		hk, hd, ht = append(hk, "probe"), append(hd, x.dump), append(ht, t)
+	}
+	nAcc := c09fAcceptedHyps(c, hk, hd, ht)
+	c09fSample(c)
+	r.note("file: hypotheses of the text-side theorems on %d accepted texts (of %d), parsefile32 on all, sample text: %v", nAcc, len(ht), time.Since(t0).Round(time.Millisecond))
+}
+
+const c09ftBroken = "Props.C09.parse_produces_wf_file_partial"
+
+// c09fHypProbes: small accepted FILE texts on which exactly one hypothesis of the text-side theorems
+// fails (the negative witnesses of Props.C09 section AcceptedFileTexts and variants in other
+// parts of a file), and texts far from the canonical spelling on which all hold
+var c09fHypProbes = []string{
+	"@include \"\\xff\"\nfiletype a;",
+	"@include \"a\"\n@include \"\\377\\376\"\ncall A()",
+	"struct S(int a \"\\xff\",)\nfiletype a;",
+	"stage S(in int a \"h\", out int b \"\" \"\\xfe\", src py \"x\",)\n",
+	"stage S(src py \"x\\xff\",)\n",
+	"stage S(src py \"x\",) using (special = \"\\xff\",)\n",
+	"filetype a;\npipeline P(in int a, out int r,) { call X(a = B.o,) call Y as X() call C(c = X.o,) call B() return (r = C.o,) }",
+	"stage S(src py \"x\",) using (mem_gb = 9007199254740992,)\ncall S()",
+	"stage S(src py \"x\",) using (vmem_gb = -9007199254740993,)\n",
+	"filetype a;\nstage S(src py \"x\",) using (mem_gb = 256.04296875,)",
+	"filetype a;\nstage S(src py \"x\",) using (mem_gb = 0.5000000001,)",
+	"filetype a;\ncall X(a = -0.0,)",
+	"filetype a;\ncall X() using (local = true, local = false,)",
+	"pipeline P(in int a,) { call X(a = [-0e0],) using (volatile = true, volatile = true,) return () }\ncall P(a = \"\\xff\",)",
+	"filetype a;\ncall local X() using (local = false,)",
+}
+
+// c09fAcceptedHyps: the driver's filehyps on the dump of every accepted text (dumps[i] starts with
+// "some\t"; the others are skipped), and parsefile32 on every text; returns the number of accepted texts
+func c09fAcceptedHyps(c *Ctx, kinds, dumps, texts []string) int {
+	r := c.Res
+	var reqs [][]string
+	var idx []int
+	for i, d := range dumps {
+		if strings.HasPrefix(d, "some\t") {
+			reqs = append(reqs, append([]string{"C09.filehyps"}, strings.Split(strings.TrimPrefix(d, "some\t"), "\t")...))
+			idx = append(idx, i)
+		}
+	}
+	nAcc := len(reqs)
+	for _, t := range texts {
+		reqs = append(reqs, []string{"C09.parsefile32", hx(t)})
+	}
+	reps := c.Drv.AskBatch(reqs)
+	for j, i := range idx {
+		rep := reps[j]
+		f := map[string]string{}
+		for _, w := range strings.Fields(rep) {
+			if kv := strings.SplitN(w, "=", 2); len(kv) == 2 {
+				f[kv[0]] = kv[1]
+			}
+		}
+		in := map[string]interface{}{"text": texts[i], "file_items": strings.TrimPrefix(dumps[i], "some\t")}
+		wf, ok := f["wf"]
+		if !ok || f["hyps"] == "" || f["hyps32"] == "" {
+			r.violate(Violation{Kind: "correspondence", Key: "C09:accepted-file-not-wf", What: "bad reply of the driver to C09.filehyps", Input: in, Model: rep, Broken: c09ftBroken})
+			continue
+		}
+		var failed []string
+		for _, k := range [][2]string{{"strs", "F6b"}, {"nonegz", "F26"}, {"mb", "F25"}, {"mb32", "F29"}, {"dist", "F40"}, {"calls", "F34"}} {
+			if f[k[0]] != "true" {
+				failed = append(failed, "not-"+k[0]+"("+k[1]+")")
+			}
+		}
+		combo := "all-hypotheses"
+		if len(failed) > 0 {
+			combo = strings.Join(failed, ",")
+		}
+		r.hist("accepted-file:" + kinds[i] + ":" + combo + ":wf=" + wf)
+		all := f["hyps"] == "true"
+		if all != (f["strs"] == "true" && f["nonegz"] == "true" && f["mb32"] == "true" && f["dist"] == "true" && f["calls"] == "true") || // fileHyps carries fileMB32Valid (F29's range = wfMB; F25 subsumed)
+			(f["hyps32"] == "true") != (all && f["mb32"] == "true") || (f["mb32"] == "true" && f["mb"] != "true") {
+			r.violate(Violation{Kind: "correspondence", Key: "C09:accepted-file-not-wf", What: "fileHyps / fileHyps32 are not the conjunctions of their parts, or fileMB32Valid does not imply fileMBValid", Input: in, Model: rep, Broken: "Props.C09.fileHyps32_implies"})
+		}
+		if all && wf != "true" {
+			r.violate(Violation{Kind: "correspondence", Key: "C09:accepted-file-not-wf",
+				What:  "the real parser accepts a file text whose AST satisfies every hypothesis of the text-side theorem (fileHyps: strings valid, no -0, mem_gb/vmem_gb in range, distinct modifier ids, distinct call ids) but not the model's wfFile",
+				Input: in, Model: rep, Broken: c09ftBroken})
+		}
+		if !all && wf == "true" {
+			r.violate(Violation{Kind: "correspondence", Key: "C09:accepted-file-not-wf",
+				What:  "the model's wfFile holds although a hypothesis of the text-side theorem fails (wfFile implies every conjunct of fileHyps)",
+				Input: in, Model: rep, Broken: c09ftBroken})
+		}
+	}
+	// the reader of the float32 variant against the real parser, on every text (accepted or not)
+	for i, t := range texts {
+		m32 := c09ftCanonFloats(c09fCanon(reps[nAcc+i]))
+		if strings.HasPrefix(dumps[i], "panic:") {
+			continue
+		}
+		if m32 != dumps[i] {
+			r.violate(Violation{Kind: "correspondence", Key: "C09:file-parse-mismatch",
+				What:  "the file the real parser reads differs from the model's parseFile32 (the reader of format_preserves_accepted_file32_partial: mem_gb / vmem_gb through the float32 rounding of the literal)",
+				Input: map[string]interface{}{"text": t, "which": kinds[i]}, Impl: dumps[i], Model: m32,
+				Broken: "correspondence C09.parsefile32 (Martian.FormatFile.parseFile32 vs UncheckedParse)"})
+		}
+	}
+	return nAcc
+}
+
+// c09ftCanonFloats rewrites the float leaves of the pipeline and call items of a model reply (the
+// model keeps the token text, the parser holds a float64 and prints it with 'g': c09xCanonFloats)
+func c09ftCanonFloats(rep string) string {
+	if !strings.HasPrefix(rep, "some\t") {
+		return rep
+	}
+	items := strings.Split(rep, "\t")
+	for i, it := range items {
+		if strings.HasPrefix(it, "P") || strings.HasPrefix(it, "C") {
+			items[i] = c09xCanonFloats(it)
+		}
+	}
+	return strings.Join(items, "\t")
+}
+
+// c09fStripComments removes the lines that hold only a comment (the model has no comments; the real
+// formatter keeps the comments of the source on lines of their own)
+func c09fStripComments(s string) string {
+	var out []string
+	for _, l := range strings.Split(s, "\n") {
+		if strings.HasPrefix(strings.TrimSpace(l), "#") {
+			continue
+		}
+		out = append(out, l)
+	}
+	return strings.Join(out, "\n")
+}
+
+// c09fSample: the sample text of Props.C09 section AcceptedFileTexts (driver op C09.filesample) is
+// accepted by the real parser, the file it returns is what the model's parseFile32 returns, satisfies
+// every hypothesis, and the real formatter's output is, comments aside, the canonical text of the
+// example (which the kernel shows to be the model's fmtFile of what the model read)
+func c09fSample(c *Ctx) {
+	r := c.Res
+	bad := func(what string, in map[string]interface{}, impl, model string) {
+		r.violate(Violation{Kind: "correspondence", Key: "C09:file-format-mismatch", What: "sample text of Props.C09 (AcceptedFileTexts): " + what,
+			Input: in, Impl: impl, Model: model, Broken: "Props.C09 (AcceptedFileTexts) non-vacuity example vs the real code"})
+	}
+	w := strings.Fields(c.Drv.AskBatch([][]string{{"C09.filesample"}})[0])
+	if len(w) != 2 {
+		bad("bad reply of the driver to C09.filesample", nil, "", strings.Join(w, " "))
+		return
+	}
+	src, canon := unhx(w[0]), unhx(w[1])
+	in := map[string]interface{}{"text": src}
+	dump := c09fDump(src)
+	if !strings.HasPrefix(dump, "some\t") {
+		bad("rejected by the real parser", in, dump, "some …")
+		return
+	}
+	if n := c09fAcceptedHyps(c, []string{"sample"}, []string{dump}, []string{src}); n != 1 {
+		return
+	}
+	items := strings.Split(strings.TrimPrefix(dump, "some\t"), "\t")
+	reps := c.Drv.AskBatch([][]string{append([]string{"C09.filehyps"}, items...), append([]string{"C09.fmtfile"}, items...)})
+	if !strings.Contains(reps[0], "hyps=true hyps32=true wf=true") {
+		bad("the file the real parser returns does not satisfy every hypothesis", in, dump, reps[0])
+	}
+	if unhx(reps[1]) != canon {
+		bad("the model's fmtFile of the file the real parser returns is not the canonical text of the example", in, unhx(reps[1]), canon)
+	}
+	out, err, pan := c09Format([]byte(src), "file.mro")
+	r.hist("accepted-file:sample-text-formatted")
+	if pan != "" || err != nil || c09fStripComments(out) != canon {
+		bad("the real formatter's output (lines holding only a comment removed) is not the canonical text of the example", in, c09c2Impl(out, err, pan), canon)
+	}
+	// the canonical text is a fixed point of the real formatter
+	if out2, err2, pan2 := c09Format([]byte(canon), "file.mro"); pan2 != "" || err2 != nil || out2 != canon {
+		bad("the canonical text of the example is not a fixed point of the real formatter", map[string]interface{}{"text": canon}, c09c2Impl(out2, err2, pan2), canon)
+	}
 }
